@@ -6,6 +6,7 @@ tree) by one of the alias equation forms `a = b`, `b = a`, `a = -b`,
 `a + b = 0`, `a - b = 0` (either variable in either role).  At most one chain
 member is a differentiated state or an input (that one has to survive); all
 others are algebraic.  Every member gets drawn min/max/nominal/fixed/start.
+Attribute values are Real/Integer literals or multiples of a parameter p0.
 The expected signed partition and the expected merged attributes are computed
 from the ABSTRACT case, never from pymoca's pre-simplification model."""
 import math
@@ -25,14 +26,15 @@ RULE = (
     "state or an input, at a drawn position) else all algebraic; each member with drawn min <= max or "
     "one-sided/unspecified bounds, nominal >= 0 or unspecified, fixed true/false/unspecified, explicit start "
     "(consistent up to sign with the other members, or conflicting) or none; values in -4..4 step 0.5 as "
-    "Real or Integer literals; options detect_aliases plus drawn expand_mx / expand_vectors / "
-    "iterative_simplification.  non-trivial = some chain with >= 3 members and >= 1 negative link; "
+    "Real or Integer literals or (in a third of the chains) as multiples `k * p0` of a parameter p0 = 0.5; "
+    "options detect_aliases plus drawn expand_mx / expand_vectors / iterative_simplification.  non-trivial = some chain with >= 3 members and >= 1 negative link; "
     "distinct = distinct (model, options)."
 )
 ASSUMPTIONS = [
     "which member of an all-algebraic chain becomes canonical is not specified: whichever single member pymoca keeps is accepted",
     "a chain's state/input member must be the survivor (pymoca only eliminates algebraic variables)",
-    "attributes may come back as float, casadi.DM or constant casadi.MX and are compared numerically (atol/rtol 1e-9); fixed is compared by truthiness",
+    "attributes may come back as float, casadi.DM or casadi.MX (constant, or an expression in the parameter p0) and are compared numerically (atol/rtol 1e-9) at p0 = 0.5 (declared) and p0 = 0.75; fixed is compared by truthiness",
+    "an exception from simplify on a generated model is a violation: the statement promises a merged result (in particular 'that start is kept')",
     "when the canonical variable has no explicit start, any alias's sign-adjusted explicit start is accepted",
     "warnings about conflicting start values are expected behaviour (only labelled)",
     "python_type merging and variable order are not asserted (the statement is silent)",
@@ -45,14 +47,18 @@ NAMES = ["a", "b", "c", "d", "f", "g", "h", "k", "m", "n", "p", "q", "aa", "x1",
 # form -> sign of the link (new = sign * old)
 FORMS = {"eq": 1, "eq_rev": 1, "diff0": 1, "diff0_rev": 1, "neg": -1, "neg_rev": -1, "sum0": -1, "sum0_rev": -1}
 INF = float("inf")
+P0 = 0.5  # declared value of the parameter used in symbolic attribute expressions
 
 
 # ------------------------------------------------------------------ generator
-def lit(v, as_int=False):
+def lit(v, style="real"):
     v = float(v)
     if v < 0 or (v == 0 and math.copysign(1.0, v) < 0):
-        return ["neg", lit(-v, as_int)]
-    if as_int and v == int(v):
+        return ["neg", lit(-v, style)]
+    if style == "sym":
+        k = int(round(v / P0))
+        return ["var", "p0"] if k == 1 else ["bin", "*", ["int", k], ["var", "p0"]]
+    if style == "int" and v == int(v):
         return ["int", int(v)]
     return ["real", repr(v)]
 
@@ -80,7 +86,7 @@ def link_eq(a, b, form):
 
 
 @st.composite
-def member_attrs(draw, sign_to_root, base_start, force_start=None):
+def member_attrs(draw, sign_to_root, base_start, force_start=None, sym_chain=False):
     a = {"min": None, "max": None, "nominal": None, "fixed": None, "start": None}
     bk = draw(st.sampled_from(["none", "min", "max", "both", "both", "both"]))
     # mostly ranges around 0 (a family closed under negation, so that intersections along a signed
@@ -98,12 +104,18 @@ def member_attrs(draw, sign_to_root, base_start, force_start=None):
     if draw(st.integers(0, 2)) > 0:
         a["nominal"] = draw(st.sampled_from(NOMS))
     a["fixed"] = draw(st.sampled_from([None, None, True, False]))
-    sk = draw(st.sampled_from(["none", "none", "consistent", "random"])) if force_start is None else force_start
+    sk = draw(st.sampled_from(["none", "consistent", "random"])) if force_start is None else force_start
     if sk == "consistent":
         a["start"] = sign_to_root * base_start
     elif sk == "random":
         a["start"] = draw(st.sampled_from(VALS))
-    a["intlit"] = draw(st.booleans())
+    # literal style per attribute: Real literal, Integer literal (when integral) or a multiple of the
+    # parameter p0 = 0.5 (every drawn value is a multiple of 0.5), i.e. a symbolic attribute expression
+    base = draw(st.sampled_from(["real", "int"]))
+    symbolic = sym_chain and draw(st.integers(0, 3)) > 0
+    a["style"] = {}
+    for key in ("min", "max", "nominal", "start"):
+        a["style"][key] = "sym" if symbolic and draw(st.integers(0, 2)) > 0 else base
     return a
 
 
@@ -133,6 +145,8 @@ def case_strategy(draw):
         base_start = draw(st.sampled_from([v for v in VALS if v != 0]))
         # start scenario: steer some chains so that every quantified start situation is frequent
         scen = draw(st.sampled_from(["free", "free", "only_aliases", "canonical_and_conflict", "none"]))
+        # chains whose attributes are (mostly) expressions in the parameter p0
+        sym_chain = draw(st.integers(0, 2)) == 0
         for j, nm in enumerate(members):
             kind = special if j == special_pos else "alg"
             force = None
@@ -142,7 +156,7 @@ def case_strategy(draw):
                 force = "none"
             elif scen == "canonical_and_conflict" and kind != "alg":
                 force = draw(st.sampled_from(["consistent", "random"]))
-            at = draw(member_attrs(sign[nm], base_start, force))
+            at = draw(member_attrs(sign[nm], base_start, force, sym_chain))
             vars_.append(dict(at, name=nm, kind=kind))
         # remaining equations so that the model is square
         if special == "state":
@@ -170,9 +184,11 @@ def case_strategy(draw):
                 eqs.append(["eq", ["bin", "*", mvar, mvar], ["bin", "+", ["real", "4.0"], ["time"]]])
         chains.append({"members": members, "links": links, "special": special, "shape": shape, "start_scenario": scen})
     # noise: a free input and (sometimes) an unrelated algebraic variable with attributes of its own
-    noise = [{"name": "uf", "kind": "input", "min": -1.0, "max": 1.0, "nominal": None, "fixed": None, "start": None, "intlit": False}]
+    plain = {k: "real" for k in ("min", "max", "nominal", "start")}
+    noise = [{"name": "uf", "kind": "input", "min": -1.0, "max": 1.0, "nominal": None, "fixed": None, "start": None, "style": plain},
+             {"name": "p0", "kind": "parameter", "min": None, "max": None, "nominal": None, "fixed": None, "start": None, "style": plain}]
     if draw(st.booleans()):
-        noise.append({"name": "w", "kind": "alg", "min": -3.5, "max": 3.5, "nominal": 4.0, "fixed": None, "start": 0.25, "intlit": False})
+        noise.append({"name": "w", "kind": "alg", "min": -3.5, "max": 3.5, "nominal": 4.0, "fixed": None, "start": 0.25, "style": plain})
         eqs.append(["eq", ["var", "w"], ["bin", "+", ["bin", "*", ["real", "2.0"], ["time"]], ["var", "uf"]]])
     vars_ = list(draw(st.permutations(vars_ + noise)))
     eqs = list(draw(st.permutations(eqs)))
@@ -197,29 +213,40 @@ def to_model(case):
         attrs = {}
         for key in ("min", "max", "nominal", "start"):
             if v[key] is not None:
-                attrs[key] = lit(v[key], v["intlit"])
+                attrs[key] = lit(v[key], v["style"][key])
         if v["fixed"] is not None:
             attrs["fixed"] = ["bool", bool(v["fixed"])]
         # drawn attribute order would be nice-to-have; declaration order is irrelevant to the statement
-        vs.append(D.var(v["name"], prefix="input" if v["kind"] == "input" else "", attrs=attrs))
+        if v["kind"] == "parameter":
+            vs.append(D.var(v["name"], prefix="parameter", value=["real", repr(P0)]))
+        else:
+            vs.append(D.var(v["name"], prefix="input" if v["kind"] == "input" else "", attrs=attrs))
     return {"name": "M", "n": 2, "m": 2, "vars": vs, "funcs": [], "eqs": case["eqs"], "ieqs": []}
 
 
 # ------------------------------------------------------------------ oracle
-def num(x, what):
-    """float / int / _DefaultValue / DM / constant MX -> float."""
+def num(x, what, psym, pval):
+    """float / int / _DefaultValue / DM / MX (constant or a function of the parameter p0) -> float."""
     import casadi as ca
 
     if isinstance(x, ca.MX):
-        if ca.symvar(x):
-            raise Violation("attribute_not_constant", "%s is symbolic: %s" % (what, x))
-        x = ca.evalf(x)
+        free = [sv.name() for sv in ca.symvar(x)]
+        if any(nm != "p0" for nm in free):
+            raise Violation("attribute_depends_on_variables", "%s = %s" % (what, x))
+        x = ca.Function("attr", [psym], [x]).call([ca.DM(pval)])[0]
     if isinstance(x, (ca.DM, ca.SX)):
         x = ca.DM(x)
         if x.numel() != 1:
             raise Violation("attribute_not_scalar", "%s has shape %r" % (what, x.shape))
         return float(x)
     return float(x)
+
+
+def aval(v, key, pval):
+    """Abstract attribute value at parameter value pval (None = unspecified)."""
+    if v[key] is None:
+        return None
+    return v[key] / P0 * pval if v["style"][key] == "sym" else v[key]
 
 
 def signs_of(chain):
@@ -229,10 +256,13 @@ def signs_of(chain):
     return sign
 
 
-def expected(chain, attrs, c):
-    """Expected merged attributes of canonical c, from the abstract attributes."""
+def expected(chain, attrs0, c, pval=P0):
+    """Expected merged attributes of canonical c at parameter value pval, from the abstract attributes."""
     sign = signs_of(chain)
     rel = {m: sign[m] * sign[c] for m in chain["members"]}
+    attrs = {m: {"min": aval(attrs0[m], "min", pval), "max": aval(attrs0[m], "max", pval),
+                 "nominal": aval(attrs0[m], "nominal", pval), "start": aval(attrs0[m], "start", pval),
+                 "fixed": attrs0[m]["fixed"]} for m in chain["members"]}
     lo = -INF if attrs[c]["min"] is None else attrs[c]["min"]
     hi = INF if attrs[c]["max"] is None else attrs[c]["max"]
     nominal = 0.0 if attrs[c]["nominal"] is None else attrs[c]["nominal"]
@@ -285,9 +315,14 @@ def check_case(ctx, case):
             if nm in where:
                 raise Violation("variable_listed_twice", "%s%s" % (nm, tail))
             where[nm] = (gi, ri, v)
+    if [v.symbol.name() for v in model.parameters] != ["p0"]:
+        raise Violation("parameter_list_changed", "%r%s" % ([v.symbol.name() for v in model.parameters], tail))
+    psym = model.parameters[0].symbol
+    # attributes may be expressions in p0: everything is compared at the declared value and at a second one
+    pvals = [P0, 0.75]
     try:
         fmeta = model.variable_metadata_function
-        meta = fmeta.call([ca.DM.zeros(*fmeta.size_in(0))])
+        metas = [fmeta.call([ca.DM(pv)]) for pv in pvals]
     except Exception as e:  # noqa: BLE001
         raise Violation("metadata_function:" + type(e).__name__, str(e)[:300] + tail)
     ar = model.alias_relation
@@ -343,25 +378,33 @@ def check_case(ctx, case):
             labels.append("fixed:from_alias")
         if exp["nominal"] > (attrs[c]["nominal"] or 0.0):
             labels.append("nominal:from_alias")
-        got = {k: num(getattr(var, k), "%s.%s" % (c, k)) for k in ("min", "max", "nominal", "fixed", "start")}
-        row = meta[gi]
-        if row.shape != (len(groups[gi][1]), 6):
-            raise Violation("metadata_function:shape", "output %d has shape %r%s" % (gi, row.shape, tail))
-        got_meta = {k: float(row[ri, col]) for k, col in (("min", 1), ("max", 2), ("start", 3), ("fixed", 4), ("nominal", 5))}
-        for src, g in (("attribute", got), ("metadata_function", got_meta)):
-            detail = "%s of canonical %s (aliases %r): got %r, expected min=%r max=%r nominal=%r fixed=%r start in %r%s" % (
-                src, c, sorted(exp_aliases - {c}), g, exp["min"], exp["max"], exp["nominal"], exp["fixed"], exp["starts"], tail)
-            if not isclose(g["min"], exp["min"]):
-                raise Violation("merge:min[%s]" % src, detail)
-            if not isclose(g["max"], exp["max"]):
-                raise Violation("merge:max[%s]" % src, detail)
-            if not isclose(g["nominal"], exp["nominal"]):
-                raise Violation("merge:nominal[%s]" % src, detail)
-            if math.isnan(g["fixed"]) or bool(g["fixed"]) != exp["fixed"]:
-                raise Violation("merge:fixed[%s]" % src, detail)
-            if not any(isclose(g["start"], s_) for s_ in exp["starts"]):
-                kind = "own_start_not_kept" if own_start else "alias_start" if alias_start else "default_start"
-                raise Violation("merge:start:%s[%s]" % (kind, src), detail)
+        symb = {key for m in members for key in ("min", "max", "nominal", "start")
+                if attrs[m][key] is not None and attrs[m]["style"][key] == "sym"}
+        labels += ["symbolic:" + ("bounds" if key in ("min", "max") else key) for key in sorted(symb)]
+        if "start" in symb and own_start and alias_start:
+            labels.append("symbolic:start_own+alias")
+        for pi, pv in enumerate(pvals):
+            e = exp if pi == 0 else expected(chain, attrs, c, pv)
+            got = {k: num(getattr(var, k), "%s.%s" % (c, k), psym, pv) for k in ("min", "max", "nominal", "fixed", "start")}
+            row = metas[pi][gi]
+            if row.shape != (len(groups[gi][1]), 6):
+                raise Violation("metadata_function:shape", "output %d has shape %r%s" % (gi, row.shape, tail))
+            got_meta = {k: float(row[ri, col]) for k, col in (("min", 1), ("max", 2), ("start", 3), ("fixed", 4), ("nominal", 5))}
+            at = "" if pi == 0 else "@other_parameter_value"
+            for src, g in (("attribute", got), ("metadata_function", got_meta)):
+                detail = "%s of canonical %s (aliases %r) at p0=%r: got %r, expected min=%r max=%r nominal=%r fixed=%r start in %r%s" % (
+                    src, c, sorted(exp_aliases - {c}), pv, g, e["min"], e["max"], e["nominal"], e["fixed"], e["starts"], tail)
+                if not isclose(g["min"], e["min"]):
+                    raise Violation("merge:min[%s]%s" % (src, at), detail)
+                if not isclose(g["max"], e["max"]):
+                    raise Violation("merge:max[%s]%s" % (src, at), detail)
+                if not isclose(g["nominal"], e["nominal"]):
+                    raise Violation("merge:nominal[%s]%s" % (src, at), detail)
+                if math.isnan(g["fixed"]) or bool(g["fixed"]) != e["fixed"]:
+                    raise Violation("merge:fixed[%s]%s" % (src, at), detail)
+                if not any(isclose(g["start"], s_) for s_ in e["starts"]):
+                    kind = "own_start_not_kept" if own_start else "alias_start" if alias_start else "default_start"
+                    raise Violation("merge:start:%s[%s]%s" % (kind, src, at), detail)
     if conflict_warned:
         labels.append("conflicting_start_warning")
     labels.append("chains:%d" % len(case["chains"]))
@@ -381,7 +424,8 @@ MANIFEST = dict(
     "tree link shapes; all five equation spellings) and random bounds/nominal/fixed/start are simplified with "
     "detect_aliases; the resulting alias relation must be exactly the generated signed partition and the "
     "surviving variable's min/max/nominal/fixed/start (attributes and variable_metadata_function) must equal "
-    "the merge computed from the abstract pre-simplification attributes.",
+    "the merge computed from the abstract pre-simplification attributes, also when attributes are expressions "
+    "in a parameter (compared at two parameter values).",
     note="Trusts the generator's own bookkeeping of link signs and CasADi's evaluation of constant expressions.",
     technique="property-based testing against a reference merge computed on the abstract model",
 )
